@@ -911,3 +911,112 @@ def check_C20(rep, scr, tier, seed):
     return rep.finish('for every allocation site an input reaching it, then each request k = 1..n failed in turn (and none); non-trivial = distinct (site, function, k, return, allocation counters)',
                       'make -C /verif/coq Properties_C20.vo + harness/check.py C20', level='proof')
 REGISTRY['C20'] = check_C20
+
+# ------------------------------------------------------------------ C15: multibyte <-> wide conversions
+def gen_conv_cases(seed, tier, consts, loc):
+    import itertools, random
+    rng = random.Random(seed); cs = []; n = [0]
+    sfx = '_u8' if loc == 'u8' else '_c'
+    chars = [0x61, 0xe9, 0x20ac, 0x10348] if loc == 'u8' else [0x61, 0x7a]
+    def mb(cps): return ''.join(chr(c) for c in cps).encode('utf-8')
+    invalid_mb = [b'\x80', b'\xc0\x80', b'\xed\xa0\x80', b'\xe2\x82', b'\xf0\x80\x80\x80', b'\xff']
+    maxn = 3 if tier == 'quick' else 4
+    strings = [list(t) for k in range(0, maxn + 1) for t in itertools.product(chars, repeat=k)]
+    if tier == 'quick' and len(strings) > 60: strings = strings[:21] + rng.sample(strings[21:], 40)
+    ret8 = b'\xee' * 8
+    def add(func, blocks, args, **meta):
+        n[0] += 1; meta.update(cls='conv', func=func, loc=loc); cs.append(vlib.Case('v%d' % n[0], func + sfx, blocks, args, meta))
+    for s in strings:
+        nb = len(mb(s)); nc = len(s)
+        # mbstowcs_s: dmax / len below, at, above the converted length; dest null (query) or not
+        for dmax in sorted(set([1, nc, nc + 1, nc + 3]) - {0}):
+            for ln in sorted(set([0, max(nc - 1, 0), nc, nc + 1, nc + 3])):
+                if ln > dmax: kind = 'len>dmax'
+                else: kind = 'ok'
+                src = mb(s) + b'\0'
+                add('mbstowcs_s', [('R', ret8), ('R', fam_copy.garbage(rng, 4 * max(dmax, ln, 1))), ('R', src)], [(0, 0), (1, 0), dmax, (2, 0), ln, UNK],
+                    op='mbstowcs', chars=s, dmax=dmax, len=ln, kind=kind, valid=True, objelems=max(dmax, ln, 1))
+        add('mbstowcs_s', [('R', ret8), ('R', mb(s) + b'\0')], [(0, 0), None, 0, (1, 0), nc + 1, UNK], op='mbstowcs', chars=s, dmax=0, len=nc + 1, kind='query', valid=True)
+        # wcstombs_s
+        wsrc = fam_copy.enc(s + [0], 4)
+        for dmax in sorted(set([1, nb, nb + 1, nb + 4]) - {0}):
+            for ln in sorted(set([0, max(nb - 1, 0), nb, nb + 1])):
+                add('wcstombs_s', [('R', ret8), ('R', fam_copy.garbage(rng, max(dmax, ln, 1))), ('R', wsrc)], [(0, 0), (1, 0), dmax, (2, 0), ln, UNK],
+                    op='wcstombs', chars=s, dmax=dmax, len=ln, kind='len>dmax' if ln > dmax else 'ok', valid=True, objelems=max(dmax, ln, 1))
+        add('wcstombs_s', [('R', ret8), ('R', wsrc)], [(0, 0), None, 64, (1, 0), nb + 1, UNK], op='wcstombs', chars=s, dmax=64, len=nb + 1, kind='query', valid=True)
+    for bad in (invalid_mb if loc == 'u8' else [b'\x80', b'\xe9']):
+        for pre in ([], [0x61]):
+            src = mb(pre) + bad + b'a\0'
+            add('mbstowcs_s', [('R', ret8), ('R', fam_copy.garbage(rng, 4 * 8)), ('R', src)], [(0, 0), (1, 0), 8, (2, 0), 6, UNK], op='mbstowcs', chars=pre, dmax=8, len=6, kind='invalid', valid=False, objelems=8)
+    for badwc in ([0xd800, 0xdfff] if loc == 'u8' else [0x80, 0x20ac]):
+        for pre in ([], [0x61]):
+            add('wcstombs_s', [('R', ret8), ('R', fam_copy.garbage(rng, 16)), ('R', fam_copy.enc(pre + [badwc, 0x61, 0], 4))], [(0, 0), (1, 0), 16, (2, 0), 12, UNK], op='wcstombs', chars=pre, dmax=16, len=12, kind='invalid', valid=False, objelems=16)
+    # single characters
+    st = b'\0' * 16
+    for wc in chars + [0, 0x7f] + ([0x80, 0x7ff, 0x800, 0xffff, 0x10000, 0x10ffff, 0xd800] if loc == 'u8' else [0x80]):
+        for dmax in (1, 2, 3, 4, 5, 8):
+            add('wcrtomb_s', [('R', ret8), ('R', fam_copy.garbage(rng, max(dmax, 6))), ('R', st)], [(0, 0), (1, 0), dmax, wc, (2, 0), UNK], op='wcrtomb', wc=wc, dmax=dmax, kind='ok', objelems=max(dmax, 6))
+            add('wctomb_s', [('R', ret8), ('R', fam_copy.garbage(rng, max(dmax, 6)))], [(0, 0), (1, 0), dmax, wc, UNK], op='wctomb', wc=wc, dmax=dmax, kind='ok', objelems=max(dmax, 6))
+        add('wcrtomb_s', [('R', ret8), ('R', st)], [(0, 0), None, 0, wc, (1, 0), UNK], op='wcrtomb', wc=wc, dmax=0, kind='query')
+        add('wctomb_s', [('R', ret8)], [(0, 0), None, 0, wc, UNK], op='wctomb', wc=wc, dmax=0, kind='query')
+    return cs
+
+def check_C15(rep, scr, tier, seed):
+    impls, constsd, md = setup(rep, scr, ['O1', 'noslack'])
+    pr = proofs(rep, scr, 'C15')
+    for var in ('O1', 'noslack'):
+        consts = constsd[var]
+        for loc, locname in (('u8', 'C.UTF-8'), ('c', 'C')):
+            cases = gen_conv_cases(seed, tier, consts, loc)
+            oi, om = run_cases(rep, scr, impls[var], md, consts, cases, 'conv_%s_%s' % (var, loc), locale=locname)
+            for x in cases:
+                a = oi.get(x.id); b = om.get(x.id); m = x.meta
+                rep.evals += 1; rep.count('%s/%s/%s/%s' % (m['func'], m['kind'], loc, var))
+                if a is None or b is None: continue
+                rep.nontrivial.add((m['func'], m['kind'], loc, var, a.ret, a.blocks[0] if a.blocks else None))
+                if len(rep.samples) < 8 and rep.evals % 3001 == 17: rep.samples.append({'case': x.line()[:200], 'impl': a.raw[:200], 'model': b.raw[:160]})
+                fails = []
+                if a.fault != '-': fails.append(('fault', 'faulted at %s' % a.fault))
+                else:
+                    rc = int(a.ret); retval = int.from_bytes(a.blocks[0][:8], 'little')
+                    if m['op'] in ('mbstowcs', 'wcstombs') and m['kind'] in ('ok', 'query') and m['valid']:
+                        s = m['chars']; unit = 4 if m['op'] == 'mbstowcs' else 1
+                        full = s if m['op'] == 'mbstowcs' else list(''.join(chr(c) for c in s).encode('utf-8'))
+                        need = len(full)
+                        if m['kind'] == 'query':
+                            if rc != 0 or retval != need: fails.append(('query-length', 'size query returned %d / count %d, the converting form needs %d' % (rc, retval, need)))
+                        else:
+                            lim = m['len']
+                            # what the standard function delivers limited to len: whole characters only
+                            if m['op'] == 'mbstowcs': deliver = full[:lim]
+                            else:
+                                deliver = []; 
+                                for c in s:
+                                    e = list(chr(c).encode('utf-8'))
+                                    if len(deliver) + len(e) > lim: break
+                                    deliver += e
+                            if len(deliver) < m['dmax']:
+                                got = fam_copy.dec(a.blocks[1][:len(deliver) * unit + unit], unit)
+                                if rc != 0: fails.append(('valid-rejected', 'valid input with room (needs %d of dmax %d) returned %d' % (len(deliver) + 1, m['dmax'], rc)))
+                                elif retval != len(deliver) or got != deliver + [0]: fails.append(('wrong-conversion', 'converted %s count %d, the standard function gives %s count %d' % (got, retval, deliver + [0], len(deliver))))
+                            else:
+                                if rc == 0: fails.append(('truncated-success', 'result of %d elements does not fit dmax %d but EOK was returned' % (len(deliver) + 1, m['dmax'])))
+                    if m['kind'] == 'invalid':
+                        if rc == 0: fails.append(('invalid-accepted', 'invalid sequence accepted'))
+                        elif a.blocks[1][:1] != b'\0': fails.append(('invalid-not-cleared', 'invalid sequence: dest not cleared'))
+                    if 'objelems' in m:   # declared dest = dmax elements; anything beyond must be untouched
+                        unit = 4 if m['op'] == 'mbstowcs' else 1
+                        if a.blocks[1][m['dmax'] * unit:] != x.blocks[1][1][m['dmax'] * unit:]: fails.append(('write-past-dmax', 'elements beyond dest[dmax] were written (dmax %d, len %s)' % (m['dmax'], m.get('len'))))
+                for kind, text in fails:
+                    kid = known.classify(rep, x, a, kind, var, consts)
+                    if kid: rep.known_hits[kid] = rep.known_hits.get(kid, 0) + 1
+                    else: rep.violation('%s(%s,%s): %s' % (m['func'], locname, var, text), {'key': (m['func'], kind, loc), 'property': 'C15', 'function': m['func'], 'locale': locname, 'failure': kind,
+                                        'case': x.to_json(), 'case_line': x.line(), 'impl_outcome': a.raw, 'model_outcome': b.raw})
+                if not fails and (a.ret, a.blocks, a.handlers, a.fault != '-') != (b.ret, b.blocks, b.handlers, b.fault != '-'): rep.mismatches.append((x, a, b, '%s/%s' % (var, loc)))
+    report_proofs(rep, pr, 'C15')
+    report_mismatches(rep, 'T1 (converters)')
+    rep.trusted = TRUSTED_COMMON + ['libc converters (mbstowcs, wcstombs, wcrtomb, wctomb) are modelled: UTF-8 as in Utf8.v (1-4 byte forms) in C.UTF-8, ASCII in C; mbsrtowcs_s/wcsrtombs_s are not yet modelled',
+                                    'reference of the oracle: Python UTF-8 codec']
+    return rep.finish('all strings of 0..3 characters over {1,2,3,4-byte} characters x dmax/len below/at/above the converted length x query form x invalid classes (lone continuation, overlong, surrogate, truncated, 0xff) x locales C.UTF-8 and C x both build configurations; single characters at every encoding-length boundary; non-trivial = distinct (function, class, locale, build, return, count)',
+                      'make -C /verif/coq Properties_C15.vo + harness/check.py C15')
+REGISTRY['C15'] = check_C15
